@@ -274,16 +274,20 @@ class EditStream(HTMLHandlerBase):
         options.audioCodec = 'any'
         options.textCodec = None
         options.drmSelection = []
-        mc = ManifestContext(
-            options=options, stream=current_stream, multi_period=None,
-            manifest=default_manifest)
-        clear_adaptation_sets = [mc.video] + mc.audio_sets + mc.text_sets
-        drmSelection = DrmSelection.from_string(','.join(DrmSystem.values()))
-        enc_options = options.clone(drmSelection=drmSelection)
-        mc = ManifestContext(
-            options=enc_options, stream=current_stream, multi_period=None,
-            manifest=default_manifest)
-        enc_adaptation_sets = [mc.video] + mc.audio_sets + mc.text_sets
+        try:
+            mc = ManifestContext(
+                options=options, stream=current_stream, multi_period=None,
+                manifest=default_manifest)
+            clear_adaptation_sets = [mc.video] + mc.audio_sets + mc.text_sets
+            drmSelection = DrmSelection.from_string(','.join(DrmSystem.values()))
+            enc_options = options.clone(drmSelection=drmSelection)
+            mc = ManifestContext(
+                options=enc_options, stream=current_stream, multi_period=None,
+                manifest=default_manifest)
+            enc_adaptation_sets = [mc.video] + mc.audio_sets + mc.text_sets
+        except ValueError as err:
+            logging.info('Invalid CGI parameters: %s', err)
+            return flask.make_response('Invalid CGI parameters', 400)
         if 'fragment' in flask.request.args:
             layout = 'fragment.html'
         else:
